@@ -399,10 +399,36 @@ impl<'c> Hist<'c> {
 		if self.profile == Profile::C11 && !self.bg_err {
 			// log the queue through tracked steps: a postponement inside drop would reorder
 			// transactions without the queue mirror noticing (finding F4 is classified by it)
+			// No tree reader is locked any more (guards and handles were given up before the
+			// handle is closed): "once the lock is released the postponed removal completes" -
+			// every round of the log worker must now log a transaction. A queue that only rotates
+			// (each head postponed behind a later transaction) is a livelock: the worker spins
+			// forever, and so would drop.
 			let mut bound = 0;
+			let mut stalled = 0usize;
 			while db.verif_status().queued_commits > 0 && bound < 10_000 {
+				let before = db.verif_status().queued_commits;
 				self.pipeline(&db, rep, Step::ProcessCommits)?;
 				bound += 1;
+				if db.verif_status().queued_commits >= before {
+					stalled += 1;
+				} else {
+					stalled = 0;
+				}
+				if stalled > 3 * before + 10 {
+					let both = self.mirror.iter().filter(|tx| tx.iter().any(|o| matches!(o, Op::InsertTree(..))) && tx.iter().any(|o| matches!(o, Op::DerefTree(..)))).count();
+					let queued: Vec<String> = self.mirror.iter().map(|tx| format!("[{}]", tx.iter().map(|o| o.show()).collect::<Vec<_>>().join(", "))).collect();
+					rep.count("postponement_livelocks", 1);
+					return fail(
+						format!("failure=postponement_livelock;mutual_insert_deref={}", both >= 2),
+						format!(
+							"no tree reader is locked, yet {} consecutive rounds of the log worker postponed the head of the queue again ({} transactions keep rotating, none is ever logged; dropping the handle would never return). Queued: {}",
+							stalled,
+							before,
+							queued.join(" ; ")
+						),
+					)
+				}
 			}
 		}
 		// rule L2: make the drop legal (what the cleanup worker would have done)
@@ -1243,10 +1269,26 @@ impl<'c> Hist<'c> {
 			let held = Held::new(handle);
 			rep.count("guards_taken", 1);
 			self.tree_nonce += 1;
-			let spec = TreeSpec {
-				data: self.tree_nonce.to_le_bytes().to_vec(),
-				children: vec![ChildSpec::Existing(shared), ChildSpec::New(TreeSpec::leaf(self.tree_nonce.to_be_bytes().to_vec()))],
-			};
+			// the re-used node hangs directly below the new root, or one or two new nodes deeper
+			let mut shared_child = ChildSpec::Existing(shared);
+			let depth = self.rng.below(3);
+			for d in 0..depth {
+				let mut data = self.tree_nonce.to_le_bytes().to_vec();
+				data.push(d as u8);
+				let mut children = vec![shared_child];
+				if self.rng.chance(1, 2) {
+					children.insert(0, ChildSpec::New(TreeSpec::leaf(vec![0xA0 + d as u8; 5])));
+				}
+				shared_child = ChildSpec::New(TreeSpec { data, children });
+			}
+			if depth > 0 {
+				rep.count("inserts_under_lock_sharing_nested", 1);
+			}
+			let mut children = vec![shared_child, ChildSpec::New(TreeSpec::leaf(self.tree_nonce.to_be_bytes().to_vec()))];
+			if self.rng.chance(1, 2) {
+				children.swap(0, 1);
+			}
+			let spec = TreeSpec { data: self.tree_nonce.to_le_bytes().to_vec(), children };
 			self.commit_tx(db, rep, vec![Op::InsertTree(c, u.clone(), spec)], None)?;
 			self.apply_tx(&last);
 			rep.count("trees_dereferenced", 1);
@@ -1381,6 +1423,30 @@ impl<'c> Hist<'c> {
 					let v = gen::random_value(&mut self.rng, false);
 					tx.push(Op::Set(1, key, v));
 				}
+			}
+		}
+		if !self.f4_probe && self.rng.chance(1, 3) {
+			// the same transaction also inserts a tree (new nodes only) under a root key nothing
+			// else touches: when the transaction is postponed, the new tree must stay readable
+			let free: Vec<Vec<u8>> = self.pools[c as usize]
+				.iter()
+				.filter(|u| **u != k && !tm.roots.contains_key(*u) && !guards.iter().any(|g| &g.1 == *u) && !self.handles.iter().any(|h| &h.0 == *u) && !self.mirror.iter().flatten().any(|o| o.col() == c && o.key() == *u))
+				.cloned()
+				.collect();
+			if !free.is_empty() {
+				let u = self.rng.pick(&free).clone();
+				self.tree_nonce += 1;
+				let n = self.tree_nonce;
+				let mut children = vec![];
+				for i in 0..self.rng.range(1, 3) {
+					let mut leaf = TreeSpec::leaf(format!("pl{}-{}", n, i).into_bytes());
+					if self.rng.chance(1, 3) {
+						leaf.children.push(ChildSpec::New(TreeSpec::leaf(format!("pll{}-{}", n, i).into_bytes())));
+					}
+					children.push(ChildSpec::New(leaf));
+				}
+				tx.insert(0, Op::InsertTree(c, u, TreeSpec { data: n.to_le_bytes().to_vec(), children }));
+				rep.count("deref_with_insert_in_one_transaction", 1);
 			}
 		}
 		if guards.iter().any(|g| g.1 == k) {
@@ -2066,7 +2132,8 @@ thread_local! {
 fn mid_hook(site: u32) {
 	// sites inside `commit` (1, 16), the wait/signal pair (13, 14) and the site that holds the
 	// commit-queue lock (9) are not read points
-	if matches!(site, 1 | 9 | 13 | 14 | 16) {
+	// (17 is the reader-side site: reached by the reads this very hook makes)
+	if matches!(site, 1 | 9 | 13 | 14 | 16) || site >= 17 {
 		return
 	}
 	let (hist, db, rep) = match MID.with(|m| {
